@@ -19,7 +19,9 @@ fn owns(v: &StepViolation) -> bool {
     match v.kind {
         Kind::WrongBuffer | Kind::StateChanged => true,
         Kind::Panic => !is_nonsep_overflow(v),
-        Kind::WrongValue | Kind::OutsideChanged => v.clause.starts_with("pop_layer") || v.clause.starts_with("push_layer"),
+        // pop / push clauses, and any pixel clause of a call that drew into an open layer: between
+        // push and pop the layer behaves as a surface of its own under the same transform and clip
+        Kind::WrongValue | Kind::OutsideChanged => v.clause.starts_with("pop_layer") || v.clause.starts_with("push_layer") || (v.detail.contains("; open layers ") && !v.detail.contains("; open layers 0")),
         Kind::NotIdle => false,
     }
 }
@@ -376,6 +378,7 @@ impl Check for C06 {
             });
         }
         super::mixed::explore_mixed(run, "C06", owns, if q { 5 } else { 6 }, true);
+        super::mixed::explore_alpha(run, "C06", "cross-nested clips and layers", super::mixed::cross_alphabet(), owns, if q { 6 } else { 7 }, true);
     }
 
     fn replay(&self, case: &str) -> Result<Option<Violation>, String> {
